@@ -76,7 +76,7 @@ def oJ : Option Int → Json
 
 def hookJ : Hook → Json
   | .init => "init" | .before => "before" | .fire i => .str s!"fire:{i}" | .openCb m => .str s!"open:{m}"
-  | .on => "on" | .after => "after"
+  | .on => "on" | .after => "after" | .notify => "notify"
 
 def evJ : Ev → Json
   | .set ts m stage o src => .arr #["set", iJ ts, nJ m, nJ stage, .bool o, oJ src]
@@ -133,6 +133,17 @@ def tbl2 (j : Json) (k : String) : Except String (Nat → Nat → List OpSpec) :
     pure fun r i => (l.lookup (r, i)).getD []
   | _ => throw s!"{k}: expected array"
 
+/-- `[[row, tag, ops], …]` -/
+def tblN (j : Json) (k : String) : Except String (Nat → String → List OpSpec) := do
+  match jOpt j k with
+  | none => pure fun _ _ => []
+  | some (.arr a) =>
+    let l ← a.toList.mapM fun v => match v with
+      | .arr #[r, .str tag, ops] => do pure ((← natOf r, tag), ← opsOf ops)
+      | _ => throw s!"{k}: expected [row, tag, ops]"
+    pure fun r t => (l.lookup (r, t)).getD []
+  | _ => throw s!"{k}: expected array"
+
 def tblU (j : Json) (k : String) : Except String (Nat → Nat → List String) := do
   match jOpt j k with
   | none => pure fun _ _ => []
@@ -161,7 +172,7 @@ def runH : JHandler := fun j => do
   let scj := (jOpt j "script").getD (Json.mkObj [])
   let init ← match jOpt scj "init" with | some v => opsOf v | none => pure []
   let sc : Script := ⟨init, ← tbl1 scj "before", ← tbl2 scj "fire", ← tbl2 scj "open", ← tbl1 scj "on", ← tbl1 scj "after",
-                      ← tblU scj "upd"⟩
+                      ← tblU scj "upd", ← tblN scj "notify", (← match jOpt scj "fuel" with | some v => natOf v | none => pure 0)⟩
   let r := run cfg trigs sc
   pure <| Json.mkObj [
     ("make", .arr made.toArray),
